@@ -20,6 +20,8 @@ pub enum Ev {
     ContinuationNoEnd,
     Data(usize),
     DataPadded,
+    /// payload of n octets padded with p octets
+    DataPad(usize, u8),
     DataOnOldStream,
     RstOld,
     WuStreamZero,
@@ -56,7 +58,7 @@ pub struct Limits {
     pub data_budget: usize,
 }
 
-pub const LIMITS: Limits = Limits { max_streams: 2, reset_max: 2, pending_accept_reset_max: 2, local_error_reset_max: 3, header_list: 128, window: 64, data_budget: 512 };
+pub const LIMITS: Limits = Limits { max_streams: 2, reset_max: 2, pending_accept_reset_max: 2, local_error_reset_max: 3, header_list: 256, window: 64, data_budget: 512 };
 
 pub struct HostileModel {
     pub events: Vec<Ev>,
@@ -66,9 +68,9 @@ pub struct HostileModel {
 
 impl HostileModel {
     pub fn new(name: &'static str, quick: bool, expire_now: bool) -> HostileModel {
-        let mut ev = vec![Ev::Open, Ev::OpenRst, Ev::BigHeaders(200), Ev::HeadersNoEnd, Ev::ContinuationNoEnd, Ev::Data(1), Ev::Data(0), Ev::DataOnOldStream, Ev::RstOld, Ev::WuStreamZero, Ev::Ping, Ev::AcceptToggle, Ev::DropAll, Ev::Drive, Ev::DriveBlocked];
+        let mut ev = vec![Ev::Open, Ev::OpenRst, Ev::BigHeaders(400), Ev::HeadersNoEnd, Ev::ContinuationNoEnd, Ev::Data(1), Ev::Data(0), Ev::DataOnOldStream, Ev::RstOld, Ev::WuStreamZero, Ev::Ping, Ev::AcceptToggle, Ev::DropAll, Ev::Drive, Ev::DriveBlocked];
         if !quick {
-            ev.extend([Ev::OpenEos, Ev::BigHeaders(700), Ev::Data(40), Ev::DataPadded, Ev::WuFlood, Ev::PriorityFlood, Ev::Settings, Ev::ReadAll, Ev::RespondAll]);
+            ev.extend([Ev::OpenEos, Ev::BigHeaders(1400), Ev::Data(40), Ev::DataPadded, Ev::WuFlood, Ev::PriorityFlood, Ev::Settings, Ev::ReadAll, Ev::RespondAll]);
         }
         if expire_now {
             ev.push(Ev::TimePasses);
@@ -147,6 +149,11 @@ pub fn apply_peer(t: &mut T2, w: &mut World, e: &Ev) {
                 t.peer_send(&wf::data_padded(sid, &[], 30, false));
             }
         }
+        Ev::DataPad(n, p) => {
+            if let Some(sid) = current {
+                t.peer_send(&wf::data_padded(sid, &vec![b'p'; *n], *p, false));
+            }
+        }
         Ev::DataOnOldStream => {
             if w.opened.len() >= 1 {
                 t.peer_send(&wf::data(w.opened[0], b"x", false));
@@ -203,7 +210,7 @@ impl Model for HostileModel {
             return false;
         }
         match &self.events[e] {
-            Ev::ContinuationNoEnd | Ev::Data(_) | Ev::DataPadded | Ev::WuStreamZero => !w.opened.is_empty(),
+            Ev::ContinuationNoEnd | Ev::Data(_) | Ev::DataPadded | Ev::DataPad(_, _) | Ev::WuStreamZero => !w.opened.is_empty(),
             Ev::DataOnOldStream | Ev::RstOld => !w.opened.is_empty(),
             Ev::ReadAll | Ev::DropAll | Ev::RespondAll => !t.accepted.is_empty(),
             _ => true,
@@ -306,7 +313,8 @@ impl Model for HostileModel {
     fn counters(&self, t: &T2, w: &World) -> Vec<(&'static str, u64)> {
         let refused = t.subject_frames().iter().filter(|f| matches!(&f.parsed, Ok(Parsed::RstStream { code: 7, .. }))).count() as u64;
         let goaway = t.goaway_sent().map(|g| (g.1 != 0) as u64).unwrap_or(0);
-        vec![("max_stream_records", w.max_streams as u64), ("streams_refused", refused), ("goaway_with_error", goaway)]
+        let answered_431 = t.subject_frames().iter().filter(|f| f.block.as_ref().and_then(|b| b.fields.as_ref().ok()).map(|fs| fs.iter().any(|(n, v)| n == b":status" && v == b"431")).unwrap_or(false)).count() as u64;
+        vec![("max_stream_records", w.max_streams as u64), ("streams_refused", refused), ("goaway_with_error", goaway), ("streams_accepted", t.accepted.len() as u64), ("max_recv_events_buffered", w.max_recv_buffered as u64), ("answered_431", answered_431)]
     }
 }
 
@@ -319,11 +327,18 @@ fn directed_runs(quick: bool, vios: &mut VioSet) -> Vec<serde_json::Value> {
         ("open-and-reset-writes-blocked", vec![Ev::OpenRst], true, true),
         ("open-beyond-limit", vec![Ev::Open], false, true),
         ("open-beyond-limit-writes-blocked", vec![Ev::Open], true, true),
-        ("oversized-headers", vec![Ev::BigHeaders(200)], false, true),
-        ("oversized-headers-writes-blocked", vec![Ev::BigHeaders(700)], true, true),
+        ("oversized-headers", vec![Ev::BigHeaders(400)], false, true),
+        ("oversized-headers-writes-blocked", vec![Ev::BigHeaders(1400)], true, true),
         ("continuation-flood", vec![Ev::ContinuationNoEnd], false, true),
         ("tiny-data", vec![Ev::Data(1)], false, true),
         ("empty-data", vec![Ev::Data(0)], false, true),
+        // default-sized windows, so that only the DATA-frame budget stands between the peer and 65535 buffered events
+        ("tiny-data-large-window", vec![Ev::Data(1)], false, true),
+        ("tiny-data-padded-2-large-window", vec![Ev::DataPad(1, 2)], false, true),
+        ("tiny-data-padded-254-large-window", vec![Ev::DataPad(1, 254)], false, true),
+        ("tiny-data-padded-255-large-window", vec![Ev::DataPad(1, 255)], false, true),
+        ("small-data-padded-large-window", vec![Ev::DataPad(100, 200)], false, true),
+        ("padding-only-data-large-window", vec![Ev::DataPad(0, 255)], false, true),
         ("ping-flood-writes-blocked", vec![Ev::Ping], true, true),
         ("settings-flood-writes-blocked", vec![Ev::Settings], true, true),
         ("window-update-zero-on-streams", vec![Ev::Open, Ev::WuStreamZero], false, true),
@@ -333,7 +348,11 @@ fn directed_runs(quick: bool, vios: &mut VioSet) -> Vec<serde_json::Value> {
     let rounds = if quick { 3000 } else { 12_000 };
     let mut report = vec![];
     for (name, evs, blocked, accept) in loops {
-        let cfg = T2Cfg { role: Side::Server, peer_settings: vec![], client: None, server: Some(server_builder(false)), policy: IoPolicy::default() };
+        let mut sb = server_builder(false);
+        if name.contains("large-window") {
+            sb.initial_window_size(65_535);
+        }
+        let cfg = T2Cfg { role: Side::Server, peer_settings: vec![], client: None, server: Some(sb), policy: IoPolicy::default() };
         let mut t = T2::new(&cfg, vec![]);
         t.accept_enabled = accept;
         let mut w = World { next_sid: 1, opened: vec![], max_streams: 0, max_recv_buffered: 0, max_send_buffered: 0, max_text: 0, pings: 0 };
@@ -355,11 +374,36 @@ fn directed_runs(quick: bool, vios: &mut VioSet) -> Vec<serde_json::Value> {
         let mut sizes: Vec<(usize, usize, usize, usize, usize)> = vec![];
         let mut consumed_while_blocked = 0u64;
         let mut ended_at = None;
+        let mut stalled = 0u64;
+        let mut dropped_by_app = 0u64;
         for r in 0..rounds {
             for e in &evs {
+                if let (Ev::DataPad(n, p), Some(sid)) = (e, w.opened.last().copied()) {
+                    // this flood stays inside the windows the peer sees (otherwise it is simply a flow-control error)
+                    t.catch_up();
+                    let pv = crate::c03::peer_view(&t);
+                    let need = (*n + *p as usize + 1) as i64;
+                    if name.contains("large-window") && (pv.v0() < need || pv.vs(sid) < need) {
+                        stalled += 1;
+                        continue;
+                    }
+                }
                 apply_peer(&mut t, &mut w, e);
             }
             t.drive(100);
+            if !name.contains("data") {
+                // the application lets go of every request it is handed (what it keeps is its own business, not the peer's doing)
+                let acc = std::mem::take(&mut t.accepted);
+                let mut panics = vec![];
+                for a in acc {
+                    safe_drop(&mut panics, "RecvStream", a.body);
+                    safe_drop(&mut panics, "SendResponse", a.respond);
+                    safe_drop(&mut panics, "SendStream", a.send);
+                    dropped_by_app += 1;
+                }
+                t.panics.extend(panics);
+                t.drive(100);
+            }
             if !t.conn_alive() {
                 ended_at = Some(r);
                 break;
@@ -371,6 +415,15 @@ fn directed_runs(quick: bool, vios: &mut VioSet) -> Vec<serde_json::Value> {
                 }
                 consumed_while_blocked = t.sh.lock().unwrap().pipes[Side::Client.idx()].total_read;
             }
+        }
+        if std::env::var("VERIF_C18_DEBUG").ok().as_deref() == Some(name) {
+            t.catch_up();
+            let pv = crate::c03::peer_view(&t);
+            eprintln!("--- {}: peer view conn={} stream={:?} acked_initial={}", name, pv.v0(), w.opened.last().map(|s| pv.vs(*s)), pv.acked_initial);
+            for f in t.mon.frames.iter().take(14) {
+                eprintln!("  {:?} {} sid={} len={}", f.sender, wf::type_name(f.raw.ty), f.raw.stream(), f.raw.payload.len());
+            }
+            eprintln!("{}", conn_text(&t));
         }
         let replay = json!({"harness": "c18.directed", "loop": name});
         let outcome = if let Some(r) = ended_at { format!("connection ended after {} rounds: {:?}, GOAWAY {:?}", r, t.conn_result, t.goaway_sent()) } else { "still serving".to_string() };
@@ -385,6 +438,10 @@ fn directed_runs(quick: bool, vios: &mut VioSet) -> Vec<serde_json::Value> {
                     replay: replay.clone(),
                 });
             }
+            if name.contains("large-window") && b.2 > 400 {
+                // budget 512 and 64 KiB windows: at most ~257 DATA events of 255 octets, 100 empty frames, two heads
+                vios.add(Violation { rule: "C18.recv-buffer-unbounded".into(), signature: name.to_string(), what: format!("attack loop '{}': {} received events are buffered after {} rounds; the DATA-frame budget ({}) and the windows allow at most 400", name, b.2, b.0, LIMITS.data_budget), replay: replay.clone() });
+            }
             if blocked {
                 // with its own writes blocked the endpoint must stop consuming input once what it owes no longer fits
                 let pending_in_pipe = t.sh.lock().unwrap().pipes[Side::Client.idx()].buf.len();
@@ -396,7 +453,7 @@ fn directed_runs(quick: bool, vios: &mut VioSet) -> Vec<serde_json::Value> {
         for p in t.panics.clone() {
             vios.add(Violation { rule: "C18.panic".into(), signature: name.to_string(), what: format!("attack loop '{}': panic {}", name, p.lines().next().unwrap_or("")), replay: replay.clone() });
         }
-        report.push(json!({"loop": name, "rounds": ended_at.unwrap_or(rounds), "outcome": outcome, "sizes(round,records,recv_events,send_frames,state_text)": sizes}));
+        report.push(json!({"loop": name, "rounds": ended_at.unwrap_or(rounds), "outcome": outcome, "rounds_stalled_by_flow_control": stalled, "requests_accepted_and_dropped_by_app": dropped_by_app, "sizes(round,records,recv_events,send_frames,state_text)": sizes}));
         let _ = t.finish();
     }
     report
@@ -421,7 +478,7 @@ pub fn run(ctx: &Ctx) -> Outcome {
     out.set("exhaustive", json!(false));
     out.set("limits", json!({"max_concurrent_streams": LIMITS.max_streams, "reset_stream_max": LIMITS.reset_max, "pending_accept_reset_max": LIMITS.pending_accept_reset_max, "local_error_reset_max": LIMITS.local_error_reset_max, "max_header_list_size": LIMITS.header_list, "initial_window_size": LIMITS.window, "data_frame_budget": LIMITS.data_budget}));
     out.set("alphabet", json!(m2.events.iter().map(|e| format!("{:?}", e)).collect::<Vec<_>>()));
-    out.set("rule", json!("X2 on T2 (real server with tiny limits, hostile scripted peer): open, open+RST_STREAM, oversized header lists (1.5x and 5x), HEADERS / CONTINUATION without END_HEADERS, DATA of 0 / 1 / 40 octets and padded, DATA / RST_STREAM on old streams, zero WINDOW_UPDATE on streams (library resets), WINDOW_UPDATE / PRIORITY floods, PING, SETTINGS; application accepting or not, reading, responding, dropping; writes open or blocked; reset memory never / at once expiring. Invariant in every state from the snapshot hook: stream records, buffered received events and queued frames within bounds computed from the configured limits plus what the application holds; connection Debug text bounded. Plus 15 attack loops each run linearly for 3000 (quick) / 12000 (thorough) rounds: retained state after twice the rounds must not have grown"));
+    out.set("rule", json!("X2 on T2 (real server with tiny limits, hostile scripted peer): open, open+RST_STREAM, oversized header lists (1.5x and 5x), HEADERS / CONTINUATION without END_HEADERS, DATA of 0 / 1 / 40 octets and padded, DATA / RST_STREAM on old streams, zero WINDOW_UPDATE on streams (library resets), WINDOW_UPDATE / PRIORITY floods, PING, SETTINGS; application accepting or not, reading, responding, dropping; writes open or blocked; reset memory never / at once expiring. Invariant in every state from the snapshot hook: stream records, buffered received events and queued frames within bounds computed from the configured limits plus what the application holds; connection Debug text bounded. Plus 21 attack loops (six of them with default-sized windows, where only the DATA-frame budget limits tiny / padded DATA) each run linearly for 3000 (quick) / 12000 (thorough) rounds: retained state after twice the rounds must not have grown"));
     out.add_sample(json!({"harness": format!("x2.{}", m1.name), "depth": 3, "choices": [2, 2, 14]}));
     out.violations = vs.into_vec();
     out.guard_nonzero("streams refused", out.coverage.get("mechanism_counters").and_then(|m| m.get("streams_refused")).and_then(|v| v.as_u64()).unwrap_or(0));
